@@ -1020,6 +1020,88 @@ pub fn exec_symplant(seed: u64) -> Vec<Case> {
     }
 }
 
+/// slot-free patterns over a symmetric child class: `x+y = y+x` is asserted by a union (the class of the sum gets a symmetry;
+/// the hashcons stores ONE orientation of its parents), and a rule whose left side has no slot at all, a nested node pattern and a
+/// repeated or twice-used variable must fire on the represented instance that needs the *other* orientation:
+/// `(O (add ?b ?a) ?a)` on `O(x+y, x)` (instance `O(y+x, x)`), and both bindings of `(add ?a (add ?b ?c))` on `x+(x+y)`.
+pub fn exec_slotfree_symplant(seed: u64) -> Vec<Case> {
+    let sig = enc_sig(&Main::sig());
+    let r = in_fresh_thread(move || {
+        intern_names();
+        let mut rng = Rng::new(seed);
+        let leaf = |v: usize, sl: &[u32]| ATerm { v, fields: sl.iter().map(|s| CField::Slot(*s)).collect(), children: vec![] };
+        let bin = |v: usize, a: ATerm, b: ATerm| ATerm { v, fields: vec![CField::App, CField::App], children: vec![a, b] };
+        let un = |v: usize, a: ATerm| ATerm { v, fields: vec![CField::App], children: vec![a] };
+        let t3 = |a: ATerm, b: ATerm, c: ATerm| ATerm { v: 17, fields: vec![CField::App, CField::App, CField::App], children: vec![a, b, c] };
+        for _ in 0..rng.below(4) {
+            let _ = Slot::fresh();
+        }
+        let mk = |rng: &mut Rng, s: u32| if rng.chance(1, 3) { un(13, leaf(2, &[s])) } else { leaf(2, &[s]) };
+        let x = mk(&mut rng, FREE[0]);
+        let y = mk(&mut rng, FREE[1]);
+        let inner = if rng.chance(1, 2) { 4usize } else { 5usize }; // add / mul: the operator made commutative on x, y
+        let mut eg: EGraph<Main> = EGraph::default();
+        let mut tags: Vec<String> = Vec::new();
+        let pv = |n: &str| APat::PVar(n.into());
+        let pbin = |v: usize, a: APat, b: APat| APat::Node(v, vec![CField::App, CField::App], vec![a, b]);
+        let template = rng.below(2);
+        // which orientation is inserted (and therefore stored) first
+        let (s1, s2) = if rng.chance(1, 2) { (bin(inner, x.clone(), y.clone()), bin(inner, y.clone(), x.clone())) } else { (bin(inner, y.clone(), x.clone()), bin(inner, x.clone(), y.clone())) };
+        let (root_t, lhs, rhs, expected): (ATerm, APat, APat, Vec<ATerm>) = if template == 0 {
+            let outer = if rng.chance(1, 2) { 14usize } else { 5usize };
+            let root_t = bin(outer, s1.clone(), x.clone());
+            let lhs = pbin(outer, pbin(inner, pv("b"), pv("a")), pv("a"));
+            let rhs = APat::Node(17, vec![CField::App, CField::App, CField::App], vec![pv("b"), pv("a"), pv("a")]);
+            // the only instance: ?a = x, ?b = y
+            (root_t, lhs, rhs, vec![t3(y.clone(), x.clone(), x.clone())])
+        } else {
+            let root_t = bin(inner, x.clone(), s1.clone());
+            let lhs = pbin(inner, pv("a"), pbin(inner, pv("b"), pv("c")));
+            let rhs = APat::Node(17, vec![CField::App, CField::App, CField::App], vec![pv("a"), pv("b"), pv("c")]);
+            (root_t, lhs, rhs, vec![t3(x.clone(), x.clone(), y.clone()), t3(x.clone(), y.clone(), x.clone())])
+        };
+        let late_union = rng.chance(1, 2);
+        let a = eg.add_expr(to_recexpr::<Main>(&s1));
+        let root = if late_union { Some(eg.add_expr(to_recexpr::<Main>(&root_t))) } else { None };
+        let b2 = eg.add_expr(to_recexpr::<Main>(&s2));
+        if rng.chance(1, 2) {
+            eg.union(&a, &b2);
+        } else {
+            eg.union(&b2, &a);
+        }
+        let root = match root {
+            Some(r) => r,
+            None => eg.add_expr(to_recexpr::<Main>(&root_t)),
+        };
+        let rule: Rewrite<Main> = Rewrite::new("slotfree-symplant", &apat_to_text(&lhs), &apat_to_text(&rhs));
+        if let Err(e) = guarded(|| apply_rewrites(&mut eg, &[rule])) {
+            tags.push("viol:apply-rewrites-panics".into());
+            tags.push(format!("panic:{}", e.replace(',', " ")));
+        }
+        for inst in &expected {
+            match guarded(|| lookup_rec_expr(&to_recexpr::<Main>(inst), &eg)) {
+                Ok(Some(xx)) => {
+                    if !eg.eq(&xx, &root) {
+                        tags.push("viol:rhs-instance-not-equal-to-lhs-instance".into());
+                    }
+                }
+                _ => tags.push("viol:symmetric-instance-did-not-fire".into()),
+            }
+        }
+        tags.push(format!("t:slotfree{template}"));
+        tags.sort();
+        tags.dedup();
+        tags.push(format!("rule:{} => {}", apat_to_text(&lhs).replace(',', "~"), apat_to_text(&rhs).replace(',', "~")));
+        tags.push(format!("instance:{}", enc_term(&root_t).replace(',', "~")));
+        let snap = eg.verif_snapshot(|_| "-".to_string()).trim_end().replace('\n', "~");
+        (snap, tags)
+    });
+    match r {
+        Ok((snap, tags)) => vec![Case { line: format!("snap {sig};{snap};inv"), impl_out: "1".into(), nontrivial: true, tags }],
+        Err(e) => vec![Case { line: format!("snap {sig};;"), impl_out: format!("PANIC {e}"), nontrivial: true, tags: vec!["viol:panic".into(), format!("panic:{}", e.replace(',', " ")), format!("seed:{seed}")] }],
+    }
+}
+
 /// a class with TWO e-nodes of the operator the pattern descends into, each carrying a slot of its own at the position the
 /// pattern has already fixed — `W = {w(a, g1 b), w(b, h(g1 a))}` under `k(var a, W)` and `k(var b, W)`: for each root exactly one
 /// of the two nodes fits, whichever comes first in the class
@@ -1104,7 +1186,7 @@ pub fn run_plant(ctx: &mut Ctx) {
     let mut skipped = 0u64;
     for _ in 0..ctx.count {
         let seed = ctx.rng.next();
-        let cs = if seed % 4 == 0 { exec_symplant(seed) } else if seed % 8 == 1 { exec_twonode_plant(seed) } else { exec_plant(seed) };
+        let cs = if seed % 4 == 0 { exec_symplant(seed) } else if seed % 8 == 1 { exec_twonode_plant(seed) } else if seed % 8 == 3 { exec_slotfree_symplant(seed) } else { exec_plant(seed) };
         if cs.is_empty() {
             skipped += 1;
         }
